@@ -264,6 +264,80 @@ let run_fn (out : out_channel) (toks : string list) =
     Printf.fprintf out "decode %s\n" (str_of_words (List.map (index_to_path h) idxs))
   | _ -> failwith ("bad F line: " ^ String.concat " " toks)
 
+(* ---------- C04m: the scan APIs run over the message fields (MS lines) ----------
+   ScanMsg.miter_all / mscan_from / mscan_from_to on the last parsed message; printed in the
+   format of harness/prop_c04.go (c04Op.head / c04Res.text) *)
+let ms_val_str (v : byte list option) : string = match v with None -> "nil" | Some b -> hex_of_bytes b
+let ms_item_str ((k, v) : byte list * byte list option) : string = hex_of_bytes k ^ ":" ^ ms_val_str v
+let ms_items_str l = String.concat " " (List.map ms_item_str l)
+let ms_flag s = (s = "1")
+let ms_callback s = if s = "-" then never_stop else stop_at (nat_of_int (int_of_string s))
+
+let run_ms (out : out_channel) (lm : msg option) (toks : string list) =
+  match lm with
+  | None -> failwith "MS without message"
+  | Some m ->
+    let r =
+      match init_vars m with
+      | Panic -> "PANIC"
+      | Val vs ->
+        (* walk fuel: any bound >= the height; call budget: any bound > the number of leaves *)
+        let fuel = nat_of_int (int_of_n (node_count m) + 2) in
+        (match toks with
+         | [ "I"; s; incl; wv ] ->
+           (match miter_all fuel fuel m vs (bytes_of_hex s) (ms_flag incl) (ms_flag wv) (nat_of_int 3) with
+            | Err e -> err_str e
+            | Ok (xs, more) ->
+              Printf.sprintf "%s | %s" (ms_items_str xs)
+                (String.concat " " (List.map (fun o -> match o with None -> "nil" | Some x -> ms_item_str x) more)))
+         | [ "S"; s; incl; wv; stop ] ->
+           (match mscan_from fuel fuel m vs (bytes_of_hex s) (ms_flag incl) (ms_flag wv) (ms_callback stop) with
+            | Err e -> err_str e
+            | Ok xs -> ms_items_str xs)
+         | [ "R"; s; incl; e; incle; wv; stop ] ->
+           (match mscan_from_to fuel fuel m vs (bytes_of_hex s) (ms_flag incl) (bytes_of_hex e) (ms_flag incle) (ms_flag wv) (ms_callback stop) with
+            | Err e -> err_str e
+            | Ok xs -> ms_items_str xs)
+         | _ -> failwith ("bad MS line: " ^ String.concat " " toks)) in
+    Printf.fprintf out "s %s = %s\n" (String.concat " " toks) r
+
+(* ---------- C18/C19: initLevels / Stat / String run over the message fields (MT lines) ----------
+   StatMsg.minit_levels / mstat / mrender on the last parsed message; the level table and the
+   Stat() fields in the format of harness/prop_c18.go, the String() lines in the format of
+   harness/prop_c19.go (c19Obs.write) *)
+let mt_bits_str (b : bool list) : string =
+  match b with
+  | [] -> "e"
+  | _ -> String.concat "" (List.map (fun x -> if x then "1" else "0") b)
+
+let run_mt (out : out_channel) (lm : msg option) =
+  match lm with
+  | None -> failwith "MT without message"
+  | Some m ->
+    let lv = minit_levels m in
+    let trip ((t, i), l) = Printf.sprintf "%d,%d,%d" (int_of_nat t) (int_of_nat i) (int_of_nat l) in
+    (match lv, mstat m lv with
+     | Ok ls, Ok s ->
+       Printf.fprintf out "t %s | %d %d %d\n" (String.concat " " (List.map trip ls))
+         (int_of_nat s.st_keycnt) (int_of_nat s.st_nodecnt) (int_of_nat s.st_levelcnt)
+     | Err e, _ | _, Err e -> Printf.fprintf out "t %s\n" (err_str e));
+    (match init_vars m with
+     | Panic -> if int_of_n (node_count m) = 0 then () else Printf.fprintf out "R PANIC\n"
+     | Val vs ->
+       let fuel = nat_of_int (int_of_n (node_count m) + 2) in
+       (match mrender fuel m vs with
+        | Err e -> Printf.fprintf out "R %s\n" (err_str e)
+        | Ok ls ->
+          List.iter (fun l ->
+              Printf.fprintf out "R %d %s %d %d %d %s\n" (int_of_nat l.l_indent)
+                (match l.l_label with None -> "^" | Some b -> mt_bits_str b)
+                (int_of_nat l.l_id) (int_of_nat l.l_step) (int_of_nat l.l_fan)
+                (match l.l_val with
+                 | None -> "-"
+                 | Some None -> "nil"
+                 | Some (Some v) -> hex_of_bytes v))
+            ls))
+
 (* ---------- trie cases ---------- *)
 type tcase = {
   mutable cid : string;
@@ -343,6 +417,8 @@ let run_file (inp : in_channel) (out : out_channel) =
                        (oid l) (oid e) (oid r)
                    | _, _, _ -> "PANIC") in
               Printf.fprintf out "q %s G %s\n" q ans)
+         | "MS" :: rest -> run_ms out !last_m rest
+         | "MT" :: _ -> run_mt out !last_m
          | "F" :: id :: rest ->
            Printf.fprintf out "C %s\n" id;
            run_fn out rest
